@@ -230,9 +230,27 @@ class RtrEngine(object):
         w.trace.ev("op", "tables")
         w.ops.append("routing_tree_to_tables(%d trees on %dx%d%s)"
                      % (n_trees, W, H, " torus" if self.torus else ""))
+        # both arguments are dictionaries keyed by net: nothing says they
+        # list the nets in the same order, or that keys exist only for the
+        # nets that were routed
+        given_keys = net_keys
+        if t.draw(3) == 0:
+            w.probe("net_keys_other_order")
+            items = list(net_keys.items())
+            k = t.draw(3)
+            if k == 0:
+                items.reverse()
+            elif k == 1 and items:
+                r = 1 + t.draw(len(items))
+                items = items[r:] + items[:r]
+            for i in range(t.draw(3)):
+                items.insert(t.draw(len(items) + 1),
+                             ("unrouted%d" % i, (kt(t.draw(1 << 32)),
+                                                 kt(0xffffffff))))
+            given_keys = dict(items)
         status, val = rigcall(w, (self.rt.MultisourceRouteError,),
                               self.rtutils.routing_tree_to_tables, routes,
-                              net_keys)
+                              given_keys)
         if status == "exc":
             w.probe("multisource_error")
             w.ops[-1] += " -> MultisourceRouteError"
